@@ -222,6 +222,14 @@ func cmdRun(args []string) {
 				}
 				fmt.Printf("        %s\n        %s\n", o.Text, strings.ReplaceAll(out, "\n", "\n        "))
 			}
+			if o.Result != want && o.Result == "sat" && !o.ExpectSat {
+				rep := map[string]interface{}{"replay_dir": scratch}
+				found := tryReplay(E, o, rep, "", scratch)
+				fmt.Printf("        replay: reproduced=%v %v inputs=%v\n", found, rep["replay_note"], rep["replay_inputs"])
+				if *verbose {
+					fmt.Printf("        %v\n", rep["replay_output"])
+				}
+			}
 		}
 	}
 	fmt.Printf("%d obligations, %d not as expected, %.1fs\n", len(all), bad, time.Since(t0).Seconds())
@@ -426,7 +434,8 @@ func cmdCheck(args []string, writeLedger bool) {
 			rep["reason"] = "cannot-generate: " + o.Gen
 		}
 		found := false
-		if o.Result == "sat" && o.Model != "" {
+		rep["replay_dir"] = replayDir
+		if o.Result == "sat" {
 			found = tryReplay(E, o, rep, root, scratch)
 		}
 		writeJSON(rp, rep)
@@ -458,8 +467,17 @@ func cmdCheck(args []string, writeLedger bool) {
 		if o.Gen != "" {
 			rep["reason"] = "cannot-generate: " + o.Gen
 		}
+		found := false
+		rep["replay_dir"] = replayDir
+		if o.Result == "sat" {
+			found = tryReplay(E, o, rep, root, scratch)
+		}
 		writeJSON(rp, rep)
-		lines = append(lines, fmt.Sprintf("VIOLATION property=%s replay=%s no-failing-input-found", prop, rp))
+		if found {
+			lines = append(lines, fmt.Sprintf("VIOLATION property=%s replay=%s", prop, rp))
+		} else {
+			lines = append(lines, fmt.Sprintf("VIOLATION property=%s replay=%s no-failing-input-found", prop, rp))
+		}
 		violations++
 	}
 	// known findings: strong obligations that are expected to fail
@@ -559,10 +577,14 @@ func writeEvidence(root, prop, tier string, seed int, frs []*FuncResult, all []*
 		slowest = append(slowest, fmt.Sprintf("%s %.2fs", slows[i].n, slows[i].t))
 	}
 	var funcs []string
+	var replayable []string
 	abstr := map[string]bool{}
 	var trusted []string
 	for _, fr := range frs {
 		funcs = append(funcs, fr.Pkg+"."+fr.Key)
+		if fr.Replayable {
+			replayable = append(replayable, fr.Pkg+"."+fr.Key)
+		}
 		for _, n := range fr.Notes {
 			abstr[fr.Key+": "+n] = true
 		}
@@ -590,6 +612,7 @@ func writeEvidence(root, prop, tier string, seed int, frs []*FuncResult, all []*
 		"trusted_base":             []string{"govc VC generator (/verif/govc)", "z3 4.8.12", "z3 5.1.0 (z3-new)", "cvc5 1.0", "go/types, golang.org/x/tools/go/packages"},
 		"samples":                  samples,
 		"functions_under_contract": funcs,
+		"functions_with_model_replay": replayable,
 		"per_backend":              perBackend,
 		"confirmed_by_second_solver": confirmed,
 		"solver_disagreements":       disagreements,
